@@ -21,14 +21,14 @@ pub fn prop() -> Prop {
 
 fn spec() -> Spec {
     Spec {
-        kinds: vec![Kind { name: "constrained", quick: 400_000, thorough: 12_000_000, serial: false }],
+        kinds: vec![Kind { name: "constrained", quick: 1_500_000, thorough: 40_000_000, serial: false }],
         rule: "each case = non-degenerate robot (dof 5/6) inside a wrapper stack of depth 0..3 drawn from Tool/Base/Frame/Parallelogram; the same stack is built twice, with and without joint limits; limits per joint from the classes narrow-window-around-a-real-solution / wide / wrapping (three kinds) / from==to / span>=2pi / far out, weights 0, 1, random; all four entry points; constrained answers must be compliant (reference arc oracle, in the wrapped robot's coordinates) and every compliant unconstrained answer must be present; constraints() of the stack must be the wrapped robot's; non-trivial = the unconstrained call returned >= 1 answer and at least one joint is constrained; distinct = hash(robot, stack, q, limits, entry)",
         assumptions: vec![
             "Parallelogram: limits live in the wrapped robot's coordinates, so answers are mapped back (coupled -= scaling*driven) before the arc test; this is the reading under which the statement's two halves agree with 'the limits a wrapper reports are those of the robot it wraps'",
             "answers within 1e-9 rad of an arc end are inconclusive",
             "matching of answers between the two stacks is modulo 2pi with tolerance 1e-9, in the wrapped robot's coordinates",
         ],
-        minimums: vec![("oracle_evals", 500_000, 20_000_000), ("kept", 150_000, 5_000_000), ("dropped", 1_000_000, 30_000_000)],
+        minimums: vec![("oracle_evals", 2_000_000, 60_000_000), ("kept", 600_000, 16_000_000), ("dropped", 4_000_000, 100_000_000)],
     }
 }
 
@@ -150,6 +150,13 @@ fn run_case(_kind: &str, idx: u64, rng: &mut Rng, mon: &mut Mon, _tier: Tier) {
             let ki = ref_inner_joints(&layers, k);
             (0..6).all(|j| circ_dist(ki[j], inner[j]) <= 1e-9)
         }) {
+            // inside the wrist-singularity band the solutions form a continuum (any J4/J6 split with the
+            // right sum); which member the continuation solver returns depends on the previous vector,
+            // and with the sentinel the two solvers resolve 'previous' differently (zeros vs. centres)
+            if rp.theta(&inner)[4].sin().abs() < 3.0e-4 {
+                mon.inconclusive("dropped-candidate-is-wrist-singular");
+                continue;
+            }
             mon.violation(&format!("legal-solution-dropped:{}", cell), "a solution that satisfies the limits is missing from the constrained answer", detail("complete", json!({"missing": jf(u), "inner": jf(&inner), "stack_name": sname, "constrained": constrained.iter().map(|k| jf(k)).collect::<Vec<_>>()})));
         } else {
             mon.held();
